@@ -19,6 +19,7 @@ import (
 func init() {
 	reg.Register("c14-segkey", segkeyMain)
 	reg.Register("c14-stress", stressMain)
+	reg.Register("c14-segkey-stress", segkeyStressMain)
 }
 
 // segkeyMain: "<size> op:hexkey ..." per line; prints one outcome per op.
@@ -163,6 +164,75 @@ func stressMain(args []string) {
 	if succ != maxTokens {
 		fmt.Printf("after quiescence %d Gets succeeded, want exactly %d\n", succ, maxTokens)
 		return
+	}
+	fmt.Println("ok")
+}
+
+// segkeyStressMain is the SEARCH oracle for SegmentKeysLock under concurrency (not a proof): in chaos mode,
+// G goroutines released together make the FIRST access to the same key of a fresh lock: exactly one TryLock may win;
+// then Lock-protected increments of a plain owner counter must never see another owner.
+//
+//	c14-segkey-stress <seed> <rounds> <goroutines>
+func segkeyStressMain(args []string) {
+	seed, _ := strconv.Atoi(args[0])
+	rounds, _ := strconv.Atoi(args[1])
+	g, _ := strconv.Atoi(args[2])
+	verifhook.SetMode(verifhook.Chaos)
+	keys := []string{"key1", "", "键值", strings.Repeat("x", 360), "a", "e"}
+	sizes := []uint32{1, 3, 8, 100, 4}
+	for r := 0; r < rounds; r++ {
+		l := syncx.NewSegmentKeysLock(sizes[(r+seed)%len(sizes)])
+		base := keys[(r+seed)%len(keys)]
+		var winners atomic.Int32
+		var start, done sync.WaitGroup
+		start.Add(1)
+		for i := 0; i < g; i++ {
+			done.Add(1)
+			go func() {
+				defer done.Done()
+				k := string(append([]byte(nil), base...)) // equal contents, distinct allocation
+				start.Wait()
+				if l.TryLock(k) {
+					winners.Add(1)
+				}
+			}()
+		}
+		start.Done()
+		done.Wait()
+		if w := winners.Load(); w != 1 {
+			fmt.Printf("round %d: %d goroutines hold Lock(%q) at the same time after a concurrent first TryLock (segments=%d)\n", r, w, base, sizes[(r+seed)%len(sizes)])
+			return
+		}
+		// second phase on another fresh instance: blocking Lock must exclude
+		l2 := syncx.NewSegmentKeysLock(sizes[(r+seed)%len(sizes)])
+		owner := 0
+		bad := atomic.Int32{}
+		var wg sync.WaitGroup
+		var start2 sync.WaitGroup
+		start2.Add(1)
+		for i := 0; i < g; i++ {
+			wg.Add(1)
+			go func() {
+				defer wg.Done()
+				k := string(append([]byte(nil), base...))
+				start2.Wait()
+				for j := 0; j < 20; j++ {
+					l2.Lock(k)
+					owner++
+					if owner != 1 {
+						bad.Add(1)
+					}
+					owner--
+					l2.Unlock(k)
+				}
+			}()
+		}
+		start2.Done()
+		wg.Wait()
+		if bad.Load() != 0 {
+			fmt.Printf("round %d: two goroutines were inside Lock(%q) at the same time (segments=%d)\n", r, base, sizes[(r+seed)%len(sizes)])
+			return
+		}
 	}
 	fmt.Println("ok")
 }
